@@ -1,6 +1,6 @@
 SPECIFICATION FairSpec
 CONSTANTS
-  MaxIts = {1, 2, 3}
+  MaxIts = {0, 1, 2, 3}
   MaxInner = 2
   Deviations = {}
   EnvAssume = {"EstimateSound", "NoBreakdownAfterInnerConverged"}
